@@ -44,6 +44,15 @@ type DID struct {
 func Parse(str string) (DID, error) {
 	const keyPrefix = "did:key:"
 
+	// Base58 decoding is quadratic in the length of its input: don't even try on
+	// identifiers far longer than any supported public key (an RSA-16384 key is
+	// about 2900 characters).
+	const maxLength = 8192
+
+	if len(str) > maxLength {
+		return Undef, fmt.Errorf("did:key identifier too long: %d characters", len(str))
+	}
+
 	if !strings.HasPrefix(str, keyPrefix) {
 		return Undef, fmt.Errorf("must start with 'did:key'")
 	}
